@@ -24,6 +24,7 @@ import threading
 import warnings
 from typing import Any
 from typing import Callable
+from typing import Iterator
 
 from .. import c14_lru as ref
 from ..c14_lru import NAMES
@@ -108,8 +109,10 @@ ASSUMPTIONS = [
 
 FAMILIES = ("dict", "ctx", "choice-dict", "fs", "choice-fs")
 FS_FAMILIES = ("fs", "choice-fs")
-LOOP_FAMILIES = ("fs", "choice-fs", "fs-multi", "ns-fs")  # async needs a real event loop
+LOOP_FAMILIES = ("fs", "choice-fs", "fs-multi", "ns-fs", "p-fs")  # async needs a real event loop
 NS_FAMILIES = ("ns-dict", "ns-choice", "ns-fs")
+P_FAMILIES = ("p-dict", "p-ctx", "p-choice", "p-fs")
+ENV_WHO = "envwho"  # environment-level global with the SAME name as the per-load global
 INJECT_KINDS = ("InjectedSourceError", "TemplateNotFoundError")
 
 # ---------------------------------------------------------------------------
@@ -286,6 +289,9 @@ class Store:
         self.ver: dict[str, int] = {}
         self.twin: Any = None
 
+    def body(self, place: str, name: str, version: int) -> str:
+        return ref.body(place, name, version, self.with_site)
+
     def consult(self) -> None:
         self.consults += 1
         if self.armed:
@@ -332,11 +338,11 @@ class DictStore(Store):
         self.armed = None
         self.ver = {}
         self.t.clear()
-        for n in NAMES:
-            self.t[n] = ref.body("src", n, 0, self.with_site)
+        for n in self.names:
+            self.t[n] = self.body("src", n, 0)
 
     def modify(self, name: str, mkind: int = 0, rename: int = 0) -> None:  # noqa: ARG002
-        self.t[name] = ref.body("src", name, self._bump(name), self.with_site)
+        self.t[name] = self.body("src", name, self._bump(name))
 
     def delete(self, name: str) -> None:
         self.t.pop(name, None)
@@ -360,15 +366,15 @@ class CtxStore(Store):
         self.twin = K().NsDictLoader(self.t)
 
     def _write(self, n: str, v: int) -> None:
-        self.t[n] = ref.body("shared", n, v, self.with_site)
+        self.t[n] = self.body("shared", n, v)
         for ns in NAMESPACES:
-            self.t[f"{ns}/{n}"] = ref.body(ns, n, v, self.with_site)
+            self.t[f"{ns}/{n}"] = self.body(ns, n, v)
 
     def reset(self) -> None:
         self.armed = None
         self.ver = {}
         self.t.clear()
-        for n in NAMES:
+        for n in self.names:
             self._write(n, 0)
 
     def modify(self, name: str, mkind: int = 0, rename: int = 0) -> None:  # noqa: ARG002
@@ -406,12 +412,12 @@ class ChoiceDictStore(Store):
         self.ver = {}
         self.d1.clear()
         self.d2.clear()
-        for n in NAMES:
-            self.d1[n] = ref.body("L1", n, 0, self.with_site)
-            self.d2[n] = ref.body("L2", n, 0, self.with_site)
+        for n in self.names:
+            self.d1[n] = self.body("L1", n, 0)
+            self.d2[n] = self.body("L2", n, 0)
 
     def modify(self, name: str, mkind: int = 0, rename: int = 0) -> None:  # noqa: ARG002
-        self.d1[name] = ref.body("L1", name, self._bump(name), self.with_site)
+        self.d1[name] = self.body("L1", name, self._bump(name))
 
     def delete(self, name: str) -> None:
         if name in self.d1:
@@ -488,13 +494,14 @@ class _Files:
 class FsStore(Store):
     family = "fs"
     has_fresh = True
+    subdir = "fs"
 
     def __init__(self, root: str) -> None:
         super().__init__()
-        self.dir = os.path.join(root, "fs")
+        self.dir = os.path.join(root, self.subdir)
         os.makedirs(self.dir)
         self.files = _Files()
-        self.dirty: set[str] = set(NAMES)
+        self.dirty: set[str] = set(self.names)
         self.twin = K().FileSystemLoader(self.dir)
 
     def _p(self, n: str) -> str:
@@ -504,12 +511,12 @@ class FsStore(Store):
         self.armed = None
         self.ver = {}
         for n in self.dirty:
-            self.files.write(self._p(n), ref.body("src", n, 0, self.with_site))
+            self.files.write(self._p(n), self.body("src", n, 0))
         self.dirty = set()
 
     def modify(self, name: str, mkind: int = 0, rename: int = 0) -> None:  # noqa: ARG002
         self.dirty.add(name)
-        self.files.write(self._p(name), ref.body("src", name, self._bump(name), self.with_site),
+        self.files.write(self._p(name), self.body("src", name, self._bump(name)),
                          mkind, rename)
 
     def delete(self, name: str) -> None:
@@ -542,7 +549,7 @@ class ChoiceFsStore(Store):
         os.makedirs(self.d1)
         os.makedirs(self.d2)
         self.files = _Files()
-        self.dirty: set[str] = set(NAMES)
+        self.dirty: set[str] = set(self.names)
         k = K()
         self.twin = k.ChoiceLoader([k.FileSystemLoader(self.d1), k.FileSystemLoader(self.d2)])
 
@@ -550,14 +557,14 @@ class ChoiceFsStore(Store):
         self.armed = None
         self.ver = {}
         for n in self.dirty:
-            self.files.write(os.path.join(self.d1, n), ref.body("L1", n, 0, self.with_site))
-            self.files.write(os.path.join(self.d2, n), ref.body("L2", n, 0, self.with_site))
+            self.files.write(os.path.join(self.d1, n), self.body("L1", n, 0))
+            self.files.write(os.path.join(self.d2, n), self.body("L2", n, 0))
         self.dirty = set()
 
     def modify(self, name: str, mkind: int = 0, rename: int = 0) -> None:  # noqa: ARG002
         self.dirty.add(name)
         self.files.write(os.path.join(self.d1, name),
-                         ref.body("L1", name, self._bump(name), self.with_site), mkind, rename)
+                         self.body("L1", name, self._bump(name)), mkind, rename)
 
     def delete(self, name: str) -> None:
         self.dirty.add(name)
@@ -626,7 +633,7 @@ class NsDictStore(Store):
 
     def _write(self, n: str, v: int) -> None:
         for place, key in _ns_sources(n):
-            self.t[key] = ref.body(place, n, v, self.with_site)
+            self.t[key] = self.body(place, n, v)
 
     _dirty: set[str] | None = None  # None: nothing written yet
 
@@ -673,7 +680,7 @@ class NsChoiceStore(NsDictStore):
     def _write(self, n: str, v: int) -> None:
         d, lbl = self._home(n)
         for place, key in _ns_sources(n):
-            d[key] = ref.body(f"{place}@{lbl}", n, v, self.with_site)
+            d[key] = self.body(f"{place}@{lbl}", n, v)
 
     def delete(self, name: str) -> None:
         assert self._dirty is not None
@@ -713,7 +720,7 @@ class NsFsStore(Store):
         for place, key in _ns_sources(n):
             p = os.path.join(self.dir, key)
             os.makedirs(os.path.dirname(p), exist_ok=True)
-            self.files.write(p, ref.body(place, n, v, self.with_site), mkind, rename)
+            self.files.write(p, self.body(place, n, v), mkind, rename)
 
     def reset(self) -> None:
         self.armed = None
@@ -743,6 +750,32 @@ class NsFsStore(Store):
         return e.stamp is not None and self.files.stamps.get(e.origin) == e.stamp
 
 
+class _PartialSources:
+    """Mixin: the templates of the partial-loading families (c14_lru.p_source)."""
+
+    names = ref.P_NAMES
+
+    def body(self, place: str, name: str, version: int) -> str:
+        return ref.p_source(place, name, version)
+
+
+class PDictStore(_PartialSources, DictStore):
+    family = "p-dict"
+
+
+class PCtxStore(_PartialSources, CtxStore):
+    family = "p-ctx"
+
+
+class PChoiceStore(_PartialSources, ChoiceDictStore):
+    family = "p-choice"
+
+
+class PFsStore(_PartialSources, FsStore):
+    family = "p-fs"
+    subdir = "pfs"
+
+
 class InlineExecutor(concurrent.futures.ThreadPoolExecutor):
     """run_in_executor without a thread hop (exhaustive file-system histories).
     (asyncio insists on a ThreadPoolExecutor instance; no worker thread is ever started.)"""
@@ -766,7 +799,7 @@ def cfg_id(cfg: dict[str, Any]) -> str:
     if cfg.get("nskey", "ns") != "ns":
         s += "/no-namespace-key"
     if cfg.get("site"):
-        s += "/env-globals"
+        s += "/env-globals" + ("-same-name" if cfg["site"] == 2 else "")
     if cfg.get("inject", INJECT_KINDS[0]) != INJECT_KINDS[0]:
         s += "/inject-" + cfg["inject"]
     return s
@@ -802,8 +835,10 @@ class Harness:
         base = "/dev/shm" if os.path.isdir("/dev/shm") and os.access("/dev/shm", os.W_OK) else None
         _sweep_stale(base or tempfile.gettempdir())
         self.root = tempfile.mkdtemp(prefix="vf-c14-", dir=base)
-        self.envs = {0: k.Environment(), 1: k.Environment(globals={"site": "S"})}
-        self.twin_envs = {0: k.Environment(), 1: k.Environment(globals={"site": "S"})}
+        eg: dict[int, dict[str, object] | None] = {
+            0: None, 1: {"site": "S"}, 2: {"site": "S", "who": ENV_WHO}}
+        self.envs = {i: k.Environment(globals=g) for i, g in eg.items()}
+        self.twin_envs = {i: k.Environment(globals=g) for i, g in eg.items()}
         self.stores: dict[str, Store] = {}
         self.loop: asyncio.AbstractEventLoop | None = None
         self.inline_executor = inline_executor
@@ -851,6 +886,14 @@ class Harness:
                 st = NsChoiceStore()
             elif family == "ns-fs":
                 st = NsFsStore(self.root)
+            elif family == "p-dict":
+                st = PDictStore()
+            elif family == "p-ctx":
+                st = PCtxStore()
+            elif family == "p-choice":
+                st = PChoiceStore()
+            elif family == "p-fs":
+                st = PFsStore(self.root)
             else:
                 raise ValueError(family)
             st.with_site = self.with_site
@@ -877,24 +920,25 @@ class Harness:
 
     def real_load(self, env: Any, family: str, name: str, g: Any, kw: dict[str, Any],
                   mode: int, partial_tag: str = "", pglobals: dict[str, Any] | None = None,
-                  ) -> tuple[str, str]:
+                  rargs: dict[str, Any] | None = None) -> tuple[str, str]:
         """One load-and-render step on the real caching loader.  partial_tag: the load
         is made by a `render` / `include` tag of a parent template whose globals
         (*pglobals*) reach the loader through the render context."""
         loop = self._loop() if (mode and family in LOOP_FAMILIES) else None
+        ra = rargs or {}
         try:
             if partial_tag:
                 parent = env.from_string("{% " + partial_tag + " '" + name + "' %}",
                                          globals=pglobals)
                 if mode == 0:
-                    return ("ok", parent.render())
-                coro = parent.render_async()
+                    return ("ok", parent.render(**ra))
+                coro = parent.render_async(**ra)
             elif mode == 0:
-                return ("ok", env.get_template(name, globals=g, **kw).render())
+                return ("ok", env.get_template(name, globals=g, **kw).render(**ra))
             else:
                 async def step() -> str:
                     t = await env.get_template_async(name, globals=g, **kw)
-                    return await t.render_async()
+                    return await t.render_async(**ra)
 
                 coro = step()
             if family in LOOP_FAMILIES:
@@ -914,13 +958,16 @@ class Harness:
         diag=True (never used for the verdict, only to name the mechanism of a divergence
         already observed) additionally compares the real cache's key set with the
         reference's after every step and reports a key-derivation disagreement."""
+        if ref.is_p_family(cfg["family"]):
+            return self._run_partials(cfg, ops, record=record, trace=trace)
         ctx = self.ctx
         family = cfg["family"]
         cap = cfg["cap"]
         auto = cfg["auto"]
         nskey = cfg.get("nskey", "ns")
-        site_i = 1 if cfg.get("site") else 0
+        site_i = int(cfg.get("site") or 0)
         site = "S" if site_i else None
+        env_who = ENV_WHO if site_i == 2 else None
         inject = cfg.get("inject", INJECT_KINDS[0])
         st = self.store(family)
         st.reset()
@@ -948,8 +995,11 @@ class Harness:
             name = st.names[op.name]
             has_ns = op.ns != 0
             ns: Any = st.ns_values[op.ns - 1] if has_ns else None
-            who = f"u{i}" if op.g == 1 else None
-            g: Any = {"who": who} if op.g == 1 else ({} if op.g == 2 else None)
+            # who wins: render argument > this load's template globals > environment globals
+            tmpl_who = f"u{i}" if op.g in (1, 3) else None
+            rargs: dict[str, Any] = {"who": f"a{i}"} if op.g in (3, 4) else {}
+            who = rargs.get("who") or tmpl_who or env_who
+            g: Any = {"who": tmpl_who} if tmpl_who else ({} if op.g == 2 else None)
             # how the namespace travels: 0 keyword, 1 render context handed to get_template,
             # 2/3 a render/include tag of a parent rendered with globals {ns: ...},
             # 4 keyword AND a render context carrying a different value (keyword wins)
@@ -996,16 +1046,16 @@ class Harness:
                 if partial_tag:
                     full = tenv.from_string(
                         "{% " + partial_tag + " '" + name + "' %}", globals=pglobals
-                    ).render()
+                    ).render(**rargs)
                 else:
-                    full = tenv.get_template(name, globals=g, **kw).render()
+                    full = tenv.get_template(name, globals=g, **kw).render(**rargs)
                 if full != ref.render_ref(now[1], who, site):
                     raise AssertionError(
                         f"reference rendering disagrees with the uncached twin: {full!r} "
                         f"vs {ref.render_ref(now[1], who, site)!r}"
                     )
                 ctx.count("twin_full_renders")
-            obs = self.real_load(env, family, name, g, kw, op.mode, partial_tag, pglobals)
+            obs = self.real_load(env, family, name, g, kw, op.mode, partial_tag, pglobals, rargs)
             n_loads += 1
             matched = None
             exps = []
@@ -1071,6 +1121,122 @@ class Harness:
                                       "real_cache_keys": [str(x) for x in loader.cache.keys()]})
         if record:
             ctx.count("loads_compared", n_loads)
+            if model.evictions:
+                ctx.count("model_evictions", model.evictions)
+                saw_other = True
+            if saw_hit and saw_miss and saw_other:
+                ctx.count("nontrivial_histories")
+                self._ntc += 1
+                if self._ntc % self.nt_mod == 0:
+                    ctx.nt(cfg_id(cfg), tuple(ops))
+        return None
+
+    # -- histories whose templates load other templates ----------------------------
+    def _run_partials(
+        self, cfg: dict[str, Any], ops: list[Op] | tuple[Op, ...], *, record: bool,
+        trace: list[str] | None = None,
+    ) -> Divergence | None:
+        """One history of a partial-loading family.  A 'load' step loads and renders a
+        template whose tags (render / include / extends, nested) load further templates;
+        the reference performs the same loads one after another as ordinary loads of
+        (namespace, name) — namespace from the template globals, seen by the tags through
+        the render context; the top-level load itself carries none — and composes the
+        expected text from what each of them may answer."""
+        ctx = self.ctx
+        family = cfg["family"]
+        cap = cfg["cap"]
+        auto = cfg["auto"]
+        nskey = cfg.get("nskey", "ns")
+        st = self.store(family)
+        st.reset()
+        env = self.envs[0]
+        loader = st.make_loader(cap, auto, nskey)
+        env.loader = loader
+        model = ref.RefLRU(cap)
+        self.last_loader, self.last_model = loader, model
+        twin = st.twin
+        names = st.names
+        saw_hit = saw_miss = saw_other = False
+        for i, op in enumerate(ops):
+            if op.kind != "load":
+                saw_other = True
+                if op.kind == "modify":
+                    st.modify(names[op.name], op.g, op.via)
+                elif op.kind == "delete":
+                    st.delete(names[op.name])
+                if trace is not None:
+                    trace.append(f"  step {i}: {ref.show_op(op, family)}")
+                continue
+            name = names[op.name]
+            has_ns = op.ns != 0
+            ns = NAMESPACES[op.ns - 1] if has_ns else None
+            who = f"u{i}" if op.g else None
+            g: dict[str, Any] = {}
+            if who:
+                g["who"] = who
+            if has_ns:
+                g["ns"] = ns
+            events: list[str] = []
+
+            def mload(nm: str, tag: str, i: int = i, has_ns: bool = has_ns, ns: Any = ns,
+                      events: list[str] = events) -> tuple[str, str]:
+                if tag:
+                    tkw: dict[str, Any] = {
+                        "context": self.render_context(0, has_ns, ns), "tag": tag}
+                    key = f"{ns}/{nm}" if (nskey and has_ns) else nm
+                else:
+                    tkw, key = {}, nm
+                try:
+                    ts = twin.get_source(env, nm, **tkw)
+                    now: tuple[Any, ...] = ("ok", ts.source, ts.name, st.stamp(ts.name))
+                except Exception as e:  # noqa: BLE001
+                    now = ("err", type(e).__name__)
+                alts = ref.expect_load(
+                    model, key, now, step=i, auto_reload=auto, has_fresh=st.has_fresh,
+                    is_fresh=st.is_fresh, armed=None,
+                )
+                a = alts[0]  # no faults / equal mtimes in these families: one alternative
+                a.commit()
+                events.append(f"{key}:{a.event}")
+                return a.outcome
+
+            before = model.view()
+            top = mload(name, "")
+            exp = ref.p_expand(top[1], who, mload) if top[0] == "ok" else top
+            obs = self.real_load(env, family, name, g or None, {}, op.mode)
+            clen = len(loader.cache)
+            if trace is not None:
+                trace.append(
+                    f"  step {i}: {ref.show_op(op, family)}  model loads={events} "
+                    f"expected={exp} observed={obs} len(cache)={clen} "
+                    f"cache-keys={list(loader.cache.keys())} model(before)={before}"
+                )
+            if record:
+                ctx.ev()
+                ctx.count("partial_loads_modelled", len(events))
+            if obs != exp:
+                cat, what = _classify_partials(family, exp, obs)
+                return Divergence(i, cat, what, {
+                    "step": i, "op": ref.show_op(op, family), "model_loads": events,
+                    "expected": exp, "observed": obs, "model_before": before,
+                    "real_cache_keys": [str(x) for x in loader.cache.keys()],
+                })
+            for e in events:
+                ev = e.rsplit(":", 1)[1]
+                if ev in ("hit", "hit-verified"):
+                    saw_hit = True
+                elif ev in ("miss", "reload"):
+                    saw_miss = True
+                if record:
+                    ctx.count("ev:" + ev)
+            if record and len(events) > 1:
+                ctx.count("ev:tag-load", len(events) - 1)
+            if clen > cap:
+                return Divergence(i, "capacity-exceeded",
+                                  f"len(loader.cache)={clen} > capacity={cap}", {
+                                      "step": i, "op": ref.show_op(op, family), "len_cache": clen})
+        if record:
+            ctx.count("loads_compared", sum(1 for o in ops if o.kind == "load"))
             if model.evictions:
                 ctx.count("model_evictions", model.evictions)
                 saw_other = True
@@ -1215,7 +1381,7 @@ class Harness:
             self.ctx.count("minimiser_runs")
             if self.run_history(cfg, twin, record=False) is None:
                 return f"namespace-path-only:{base}:" + forms(lambda o: bool(o.ns))
-        return f"{cat}:{ref.pattern(ref.sort_commuting(small), cat)}"
+        return f"{cat}:{ref.pattern(ref.sort_commuting(small), cat, fam)}"
 
     def report(self, cfg: dict[str, Any], ops: list[Op], d: Divergence, origin: str) -> str:
         """Turn a divergence at the last executed step into a keyed violation."""
@@ -1265,7 +1431,7 @@ class Harness:
                     key, small = f"namespace-key-collision:{coll}", pair
                     ctx.count("violations_named_as_key_collision")
         for pat, k in ([] if key is not None else known):
-            embs = list(ref.embeddings(pat, hist, exact=ref.is_ns_family(cfg["family"])))
+            embs = list(ref.embeddings(pat, hist, exact=ref.concrete_names(cfg["family"])))
             if not embs:
                 continue
             for idx in embs:
@@ -1317,6 +1483,35 @@ class Harness:
         return key
 
 
+def _classify_partials(fam: str, exp: tuple[str, str], obs: tuple[str, str]) -> tuple[str, str]:
+    if obs[0] == "err" and exp[0] == "ok":
+        return (f"error-class:{obs[1]}-instead-of-ok@{fam}",
+                f"render raised {obs[1]} where the reference composes {exp[1]!r}")
+    if obs[0] == "ok" and exp[0] == "err":
+        return (f"error-class:ok-instead-of-{exp[1]}@{fam}",
+                f"render returned {obs[1]!r} where an uncached load of a partial raises {exp[1]}")
+    if obs[0] == "err":
+        return (f"error-class:{obs[1]}-instead-of-{exp[1]}@{fam}",
+                f"render raised {obs[1]}, expected {exp[1]}")
+    what = f"rendered {obs[1]!r}, expected {exp[1]!r}"
+    mo, me = ref.RE_MARKER.findall(obs[1]), ref.RE_MARKER.findall(exp[1])
+    if len(mo) != len(me):
+        return ("wrong-source", what)
+    for a, b in zip(mo, me):
+        if a == b:
+            continue
+        if a[1] != b[1]:
+            return ("wrong-template", what)
+        if a[0] != b[0]:
+            return ("namespace-leak", what + f" (the {b[1]!r} loaded for another namespace)")
+        if a[2] != b[2]:
+            older = int(a[2]) < int(b[2])
+            return (f"stale-partial@{fam}" if older else f"lru-order:resident-partial-reloaded@{fam}",
+                    what + f" ({b[1]!r}: v{a[2]} served, v{b[2]} expected)")
+        return ("stale-globals", what)
+    return ("garbled-output", what)
+
+
 def _key_disagreement(key: str, real_keys: set[str]) -> str | None:
     """Name a disagreement about how the cache key of a load is derived (None: the key
     is missing for another reason — the behavioural symptom names that)."""
@@ -1351,9 +1546,14 @@ def exh_plan(tier: str, family: str, cap: int, auto: bool = False) -> list[tuple
     plan: list[tuple[int, dict[str, Any]]] = [(1, {}), (2, dict(mk)), (3, dict(mk))]
     if tier == "quick":
         # with capacity 3 a 4-step history can evict only at its last step, which no
-        # later step can observe; quick leaves those to the thorough tier
+        # later step can observe; quick leaves those to the thorough tier.  Length 4 in
+        # quick: file-system families all-sync with newer mtimes only (older / equal at
+        # length <= 3 and in the mtime family); families without freshness information
+        # all-sync and all-async with auto_reload on, all-sync with it off (the flag has
+        # no behavioural effect there).
         if cap < 3:
-            plan.append((4, {"per_op_mode": False, "uniform_modes": (0,) if fs else (0, 1), **mk}))
+            modes = (0,) if (fs or not auto) else (0, 1)
+            plan.append((4, {"per_op_mode": False, "uniform_modes": modes}))
     else:
         plan.append((4, dict(mk)))
         if not fs:
@@ -1373,6 +1573,56 @@ def mtime_configs() -> list[dict[str, Any]]:
     # fs-multi: one CachingFileSystemLoader over two search paths
     return [{"family": f, "cap": c, "auto": True}
             for f in (*FS_FAMILIES, "fs-multi") for c in (1, 2)]
+
+
+def globals_configs() -> list[dict[str, Any]]:
+    """Environment globals that define the same name as the per-load globals."""
+    return [{"family": f, "cap": c, "auto": True, "site": 2}
+            for f in ("dict", "choice-dict", "fs") for c in (1, 2)]
+
+
+GLOBALS_LEN = 3
+
+
+def globals_expected() -> int:
+    return len(globals_configs()) * sum(
+        1 for ln in range(1, GLOBALS_LEN + 1) for _ in ref.globals_histories(ln))
+
+
+def partials_configs() -> list[dict[str, Any]]:
+    """(cfg, with namespaces, max length of the fully enumerated part)."""
+    out = [{"family": "p-dict", "cap": c, "auto": True} for c in (1, 2, 3)]
+    out.append({"family": "p-choice", "cap": 2, "auto": True})
+    out.append({"family": "p-fs", "cap": 2, "auto": True})
+    out += [{"family": "p-ctx", "cap": c, "auto": True} for c in (2, 3)]
+    return out
+
+
+def partials_plan(tier: str, family: str) -> tuple[bool, int, int]:
+    """(namespaces?, max length enumerated all-sync AND all-async, max length all-sync)."""
+    k = 0 if tier == "quick" else 1
+    if family == "p-ctx":
+        return True, 2 + k, 3 + k
+    if family == "p-fs":
+        return False, 3, 3 + k
+    return False, 3 + k, 4 + k
+
+
+def partials_items(tier: str, family: str) -> Iterator[tuple[Op, ...]]:
+    with_ns, both, sync_only = partials_plan(tier, family)
+    for ln in range(1, sync_only + 1):
+        for ops in ref.partials_histories(ln, with_ns):
+            yield ref.with_mode(ops, 0)
+            if ln <= both:
+                yield ref.with_mode(ops, 1)
+
+
+def partials_expected(tier: str) -> int:
+    n = 0
+    for cfg in partials_configs():
+        n += sum(1 for _ in partials_items(tier, cfg["family"]))
+        n += 3 * sum(1 for _ in ref.partials_skeletons())
+    return n
 
 
 def nsval_configs() -> list[dict[str, Any]]:
@@ -1419,6 +1669,12 @@ def shards(tier: str, seed: int) -> list[dict[str, Any]]:  # noqa: ARG001
         nn = (6 if cfg["family"] == "ns-fs" else 3) * (1 if tier == "quick" else 2)
         for i in range(nn):
             specs.append({"kind": "nsval", "cfg": cfg, "i": i, "n": nn})
+    for cfg in partials_configs():
+        npp = (2 if tier == "quick" else 8)
+        for i in range(npp):
+            specs.append({"kind": "partials", "cfg": cfg, "i": i, "n": npp})
+    for cfg in globals_configs():
+        specs.append({"kind": "globals", "cfg": cfg})
     nr = 12 if tier == "quick" else 48
     for i in range(nr):
         specs.append({"kind": "random", "i": i, "n": nr})
@@ -1443,9 +1699,12 @@ def floors(tier: str) -> dict[str, int]:
             "loads_compared": 1_500_000,
             "distinct_nontrivial": 100_000,
             "set:configs": 30,
-            "exh_histories_done": 1_000_000,
+            "exh_histories_done": 800_000,
             "mtime_histories_done": 87_876,
             "nsval_histories_done": 194_940,
+            "partials_histories_done": 58_100,
+            "ev:tag-load": 100_000,
+            "globals_histories_done": 16_368,
             "set:nsval_value_pairs": 110,
             "set:nsval_channels": 25,
             "reload_older_mtime": 5_000,
@@ -1474,6 +1733,9 @@ def floors(tier: str) -> dict[str, int]:
         "exh_histories_done": 15_000_000,
         "mtime_histories_done": 1_000_000,
         "nsval_histories_done": 194_940,
+        "partials_histories_done": 594_485,
+        "ev:tag-load": 1_000_000,
+        "globals_histories_done": 16_368,
         "set:nsval_value_pairs": 110,
         "set:nsval_channels": 25,
         "reload_older_mtime": 50_000,
@@ -1501,6 +1763,10 @@ def exhaustive(tier: str, merged: dict[str, Any]) -> bool:
     if merged["counters"].get("mtime_histories_done", 0) != mtime_expected(tier):
         return False
     if merged["counters"].get("nsval_histories_done", 0) != ref.nsval_count() * len(nsval_configs()):
+        return False
+    if merged["counters"].get("partials_histories_done", 0) != partials_expected(tier):
+        return False
+    if merged["counters"].get("globals_histories_done", 0) != globals_expected():
         return False
     return got == want and not merged.get("truncated") and not merged.get("failed")
 
@@ -1532,6 +1798,10 @@ def run_shard(spec: dict[str, Any], ctx: Ctx) -> None:
             _mtime(h, spec, ctx)
         elif kind == "nsval":
             _nsval(h, spec, ctx)
+        elif kind == "partials":
+            _partials(h, spec, ctx)
+        elif kind == "globals":
+            _globals(h, spec, ctx)
         elif kind == "random":
             _random(h, spec, ctx)
         else:
@@ -1626,6 +1896,54 @@ def _mtime(h: Harness, spec: dict[str, Any], ctx: Ctx) -> None:
         ctx.sample({"kind": "mtime", "cfg": cfg_id(cfg), "history": [ref.show_op(o, cfg["family"]) for o in last]})
 
 
+def _partials(h: Harness, spec: dict[str, Any], ctx: Ctx) -> None:
+    """Templates that load templates (render / include / extends, nested)."""
+    cfg = spec["cfg"]
+    fam = cfg["family"]
+    ctx.seen("configs", cfg_id(cfg))
+    i, n = spec["i"], spec["n"]
+    idx = 0
+    last = None
+    for ops in partials_items(spec["tier"], fam):
+        idx += 1
+        if idx % n != i:
+            continue
+        if idx & 255 == 0:
+            ctx.check_deadline()
+        _run_and_report(h, cfg, ops, ctx, "partials", only_last=True)
+        ctx.count("partials_histories_done")
+    for sk in ref.partials_skeletons():
+        for mode in (0, 1, 2):
+            idx += 1
+            if idx % n != i:
+                continue
+            ops = ref.with_mode(sk, mode)
+            _run_and_report(h, cfg, ops, ctx, "partials", only_last=False)
+            ctx.count("partials_histories_done")
+            last = ops
+    if last is not None and i == 0:
+        ctx.sample({"kind": "partials", "cfg": cfg_id(cfg),
+                    "history": [ref.show_op(o, fam) for o in last]})
+
+
+def _globals(h: Harness, spec: dict[str, Any], ctx: Ctx) -> None:
+    """Which layer wins: render argument > template globals > environment globals, on an
+    Environment whose globals use the same variable name."""
+    cfg = spec["cfg"]
+    ctx.seen("configs", cfg_id(cfg))
+    last = None
+    for ln in range(1, GLOBALS_LEN + 1):
+        for k, ops in enumerate(ref.globals_histories(ln)):
+            if k & 255 == 0:
+                ctx.check_deadline()
+            _run_and_report(h, cfg, ops, ctx, "globals", only_last=True)
+            ctx.count("globals_histories_done")
+            last = ops
+    if last is not None:
+        ctx.sample({"kind": "globals", "cfg": cfg_id(cfg),
+                    "history": [ref.show_op(o, cfg["family"]) for o in last]})
+
+
 def _nsval(h: Harness, spec: dict[str, Any], ctx: Ctx) -> None:
     """Namespace-value family on the tenant-aware loaders (see c14_lru.nsval_pairs)."""
     cfg = spec["cfg"]
@@ -1651,13 +1969,15 @@ def _nsval(h: Harness, spec: dict[str, Any], ctx: Ctx) -> None:
 def random_history(rng: random.Random, length: int, fam: str = "") -> list[Op]:
     if ref.is_ns_family(fam):
         return _random_ns_history(rng, length)
+    if ref.is_p_family(fam):
+        return _random_p_history(rng, length, fam == "p-ctx")
     ops: list[Op] = []
     n_names = rng.choice((2, 3, 3))
     for _ in range(length):
         r = rng.random()
         if r < 0.66:
             ops.append(Op("load", rng.randrange(n_names), rng.choice((0, 0, 1, 2)),
-                          rng.choice((0, 1, 1, 2)), rng.randrange(2), rng.randrange(2)))
+                          rng.choice((0, 1, 1, 2, 3, 4)), rng.randrange(2), rng.randrange(2)))
             if not ops[-1].ns:
                 ops[-1] = ops[-1]._replace(via=0)
         elif r < 0.82:
@@ -1692,7 +2012,7 @@ def _random_ns_history(rng: random.Random, length: int) -> list[Op]:
     def load() -> Op:
         ns = rng.choice(pool)
         via = rng.randrange(5) if ns else rng.choice((0, 0, 2, 3))
-        return Op("load", rng.choice(names), ns, rng.choice((0, 1, 1, 2)), rng.randrange(2), via)
+        return Op("load", rng.choice(names), ns, rng.choice((0, 1, 1, 2, 3, 4)), rng.randrange(2), via)
 
     for _ in range(length):
         r = rng.random()
@@ -1708,7 +2028,26 @@ def _random_ns_history(rng: random.Random, length: int) -> list[Op]:
     return ops
 
 
-RANDOM_FAMILIES = (*FAMILIES, "fs-multi", *NS_FAMILIES)
+def _random_p_history(rng: random.Random, length: int, with_ns: bool) -> list[Op]:
+    """Random history over the partial-loading vocabulary."""
+    ops: list[Op] = []
+
+    def load() -> Op:
+        ns = rng.choice((0, 0, 1, 2)) if with_ns else 0
+        return Op("load", rng.choice(ref.P_TOPS), ns, rng.choice((0, 1, 1)), rng.randrange(2), 0)
+
+    for _ in range(length):
+        r = rng.random()
+        if r < 0.7:
+            ops.append(load())
+        else:
+            kind, n = rng.choice(ref.P_MUTATIONS)
+            ops.append(Op(kind, n))
+    ops.append(load())
+    return ops
+
+
+RANDOM_FAMILIES = (*FAMILIES, "fs-multi", *NS_FAMILIES, *P_FAMILIES)
 
 
 def _random(h: Harness, spec: dict[str, Any], ctx: Ctx) -> None:
@@ -1724,10 +2063,13 @@ def _random(h: Harness, spec: dict[str, Any], ctx: Ctx) -> None:
         fam = RANDOM_FAMILIES[(hi + spec["i"]) % len(RANDOM_FAMILIES)]
         cfg = {
             "family": fam, "cap": rng.choice((1, 2, 3)), "auto": rng.random() < 0.5,
-            "nskey": "ns" if (fam == "ctx" or ref.is_ns_family(fam) or rng.random() < 0.8) else "",
-            "site": 1 if rng.random() < 0.3 else 0,
+            "nskey": "ns" if (fam in ("ctx", "p-ctx") or ref.is_ns_family(fam)
+                              or rng.random() < 0.8) else "",
+            "site": rng.choice((0, 0, 0, 0, 1, 2, 2)),
             "inject": rng.choice(INJECT_KINDS),
         }
+        if ref.is_p_family(fam):
+            cfg["site"] = 0  # the partial-loading runner uses the plain environment
         ctx.seen("configs", cfg_id({"family": fam, "cap": cfg["cap"], "auto": cfg["auto"]}))
         ctx.seen("random_configs", cfg_id(cfg))
         ops = random_history(rng, rng.randrange(5, 40), fam)
